@@ -89,7 +89,7 @@ class Recorder:
         names = tuple(o[0] for o in ops)
         if len(names) >= 2:
             self.shapes.add(hashlib.sha256(repr(names).encode()).hexdigest()[:12])
-        if len(set(names)) >= 4 and (self.sample is None or len(set(n for n in names)) > self.sample_kinds) and len(ops) <= 40:
+        if len(ops) >= 2 and (self.sample is None or len(set(names)) > self.sample_kinds) and len(ops) <= 40:
             self.sample = core.to_jsonable(ops[:14])
             self.sample_kinds = len(set(names))
 
